@@ -8,4 +8,14 @@ PROPS = {
         'not_covered': [],
         'assumptions': [],
     },
+    'C05': {
+        'units': [('contracts/S_raw.vc', None, 'S_raw'), ('contracts/S_parse.vc', None, 'S_parse')],
+        'replay': 'c05',
+        'replay_scope': 'every pair (first update, optional reset_tags, second update) over 3 formats x 40 small inputs (escapes, NUL, delimiters, multi-byte); compared with the fresh constructor; writers/iterators/accessors exercised',
+        'not_covered': [
+            'that the parsed raw text / labels / tags equal the annotated input (content equality) is C03/C04 and is not claimed; proved here: totality, termination, and that every output is consistent with the parsed text (types, position maps, lengths, tag-slot count)',
+            'writers (write_tokenized_text / write_partial_annotation_text) are outside Verus; "every accessor, writer and iterator works" is proved for accessors and the token iterator (C02), and exercised only by the bounded sweep for writers',
+            'Sentence.tag_scores is not part of the view: update_* do not clear it (stale candidates are only observable through Token::tag_candidates before the next fill_tags)',
+        ],
+    },
 }
